@@ -647,8 +647,8 @@ def gen_binder(rng, ctx, depth, form):
     if form == "match":
         return ["match", outer, b, body()]
     if form == "matchg":
-        # the guard reads the arm's binder (a renamed identifier of that spelling there is the finding
-        # match_guard_walked_outside_arm_scope: the quota of the caller decides how many of those are kept)
+        # the guard reads the arm's binder (a renamed identifier of that spelling there was the finding
+        # match_guard_walked_outside_arm_scope, repaired by e64116b: the caller keeps a quota of those as regression cases)
         guard = gen_sx(rng, inner_ctx, max(0, d2 - 1), must=b if rng.random() < 0.6 else None)
         return ["matchg", outer, b, guard, body(), gen_sx(rng, ctx, max(0, d2 - 1))]
     if form == "iflet":
@@ -805,9 +805,8 @@ def designed_sx(rng, form, spelling, ctx, L, like):
     if form == "match":
         return ["match", out, b, use_b]
     if form == "matchg":
-        # the guard reads L, or a constant when the binder has L's spelling (reading the binder there under the spelling of a
-        # renamed local is the finding match_guard_walked_outside_arm_scope; the random programs have a quota of those)
-        guard = ["o1", "mod3", V(src)] if (b[0] == "id" and b[1] != src[1]) else K(rng.choice([0, 1, 1]))
+        # the guard reads the arm's binder (under the spelling of a renamed local: the case repaired by e64116b), L, or a constant
+        guard = ["o1", "mod3", V(b)] if rng.random() < 0.6 else ["o1", "mod3", V(src)] if (b[0] == "id" and b[1] != src[1]) else K(rng.choice([0, 1, 1]))
         return ["matchg", out, b, guard, use_b, ["o1", f2, V(src)]]
     if form == "iflet":
         return ["iflet", b, ["o2", "addm", V(src), V(src)] if rng.random() < 0.5 else out, use_b, ["o1", f2, V(src)]]
@@ -861,15 +860,16 @@ def gen_db(rng, designed=False):
 
 
 def gen_cases(tier, rng):
-    """[(prog, info, inst, (capture_free, guards_ok))]: the designed grid, then random programs with quotas for the two classes
-    outside the hypotheses (kept few: they are findings on the unchanged code, not the subject of the family)"""
+    """[(prog, info, inst, (capture_free, guards_ok))]: the designed grid, then random programs with quotas: programs outside the
+    hypothesis (a finding on the unchanged code, kept few) and programs whose guard reads the arm's binder under the spelling of a
+    renamed local (inside the hypothesis since fix e64116b: regression cases)"""
     out = []
     for k, (f, s, p) in enumerate(plan(tier, rng)):
         for _try in range(20):
             prog, info = gen_designed(rng, f, s, p, k + _try)
             inst = instantiate(prog)
             cl = classify(inst)
-            if cl == (True, True):
+            if cl[0]:
                 break
         info = dict(info, designed="%s/%s/%s" % (f, s, p))
         out.append((prog, info, inst, cl))
